@@ -508,6 +508,55 @@ func classifyLoop(lp loopInfo) string {
 			}
 		}
 	}
+	// a slice consumed from the front: the header phi is re-sliced on the back edge with a positive
+	// constant low bound (s = s[k:]) and an exit test in the loop looks at len(s)
+	for _, in := range lp.header.Instrs {
+		phi, ok := in.(*ssa.Phi)
+		if !ok {
+			continue
+		}
+		if _, isSlice := phi.Type().Underlying().(*types.Slice); !isSlice {
+			continue
+		}
+		shrinks := false
+		for i, e := range phi.Edges {
+			if !lp.body[lp.header.Preds[i]] {
+				continue
+			}
+			sl, ok := e.(*ssa.Slice)
+			if !ok || sl.X != ssa.Value(phi) || sl.High != nil {
+				shrinks = false
+				break
+			}
+			k, ok := sl.Low.(*ssa.Const)
+			if !ok || k.Value == nil || k.Int64() <= 0 {
+				shrinks = false
+				break
+			}
+			shrinks = true
+		}
+		if !shrinks {
+			continue
+		}
+		for _, b := range sortedBlocks(lp.body) {
+			if len(b.Instrs) == 0 {
+				continue
+			}
+			iff, ok := b.Instrs[len(b.Instrs)-1].(*ssa.If)
+			if !ok {
+				continue
+			}
+			exits := false
+			for _, s := range b.Succs {
+				if !lp.body[s] {
+					exits = true
+				}
+			}
+			if exits && lenOfDependsOn(iff.Cond, phi, 0) {
+				return "shrinking-slice"
+			}
+		}
+	}
 	for _, in := range lp.header.Instrs {
 		phi, ok := in.(*ssa.Phi)
 		if !ok {
@@ -1143,4 +1192,24 @@ func c15ErrorGuarded(c *Ctx) {
 		}
 	}
 	c.R.Sites += n
+}
+
+// lenOfDependsOn: the condition is computed from len(target).
+func lenOfDependsOn(v ssa.Value, target ssa.Value, depth int) bool {
+	if depth > 5 || v == nil {
+		return false
+	}
+	switch x := v.(type) {
+	case *ssa.Call:
+		if b, ok := x.Call.Value.(*ssa.Builtin); ok && b.Name() == "len" && len(x.Call.Args) == 1 {
+			return x.Call.Args[0] == target
+		}
+	case *ssa.BinOp:
+		return lenOfDependsOn(x.X, target, depth+1) || lenOfDependsOn(x.Y, target, depth+1)
+	case *ssa.UnOp:
+		return lenOfDependsOn(x.X, target, depth+1)
+	case *ssa.Convert:
+		return lenOfDependsOn(x.X, target, depth+1)
+	}
+	return false
 }
